@@ -64,14 +64,14 @@ ASSUMPTIONS = [
 MIN_EVENTS = {
     'quick': {'parser_chunks': 1000000, 'reader_packets': 1500000, 'areader_chunks': 1000000,
               'usb_chunks': 700000, 'oracle_evals': 8000000, 'agree_evals': 500000,
-              'exhaustive_chunkings': 80000, 'huge_streams': 50,
+              'exhaustive_chunkings': 80000, 'huge_streams': 50, 'truncated_streams': 3000,
               'invalid_injections': 7000, 'invalid_reported': 7000, 'invalid_reported_by_reader': 2400,
               'usbsrc_packets': 4000,
-              'server_tcp_cuts': 90, 'server_unix_cuts': 90, 'server_ws_cuts': 90,
+              'server_tcp_cuts': 120, 'server_unix_cuts': 120, 'server_ws_cuts': 90,
               'server_packets_seen': 1000},
     'thorough': {'parser_chunks': 20000000, 'reader_packets': 30000000, 'areader_chunks': 20000000,
                  'usb_chunks': 15000000, 'oracle_evals': 150000000, 'agree_evals': 10000000,
-                 'exhaustive_chunkings': 1000000, 'huge_streams': 2000,
+                 'exhaustive_chunkings': 1000000, 'huge_streams': 2000, 'truncated_streams': 100000,
                  'invalid_injections': 150000, 'invalid_reported': 150000, 'invalid_reported_by_reader': 50000,
                  'usbsrc_packets': 100000,
                  'server_tcp_cuts': 1200, 'server_unix_cuts': 1200, 'server_ws_cuts': 1200,
@@ -491,6 +491,53 @@ async def drive_areader(r: R, s: Stream, family, cuts):
     return out
 
 
+async def drive_truncated(r: R, rng, s: Stream):
+    """The stream ends inside a packet: the pull readers must hand out the complete
+    packets and then report (exception / None), never a packet that was not sent."""
+    from bumble.transport.common import AsyncPacketReader, PacketReader
+
+    inside = [c for c in range(1, len(s.data)) if c not in set(s.bounds)]
+    if not inside:
+        return
+    c = rng.choice(inside)
+    n = H.complete_in_prefix(s.bounds, c)
+    cuts = sorted(rng.randint(0, c) for _ in range(rng.choice([0, 1, 3])))
+    chunks = H.split_at(s.data[:c], cuts)
+    ctx = f'stream={s.desc} truncated at {c} ({s.cut_class(c)}) cuts={cuts}'
+    reader = PacketReader(io.BufferedReader(ShortRaw(chunks), buffer_size=rng.choice([1, 5, 4096])))
+    out = []
+    for _ in range(n + 2):
+        try:
+            p = reader.next_packet()
+        except Exception:
+            break
+        if p is None:
+            break
+        out.append(p)
+    r.ev('truncated_streams')
+    r.ev('oracle_evals')
+    if out != s.packets[:n]:
+        r.bad('reader/truncated/' + ('invented-packet' if len(out) > n else 'lost-or-changed'),
+              f'blocking reader returned {[bytes(p)[:12].hex() for p in out]} for a stream holding {n} complete '
+              f'packets; {ctx}')
+    sr = asyncio.StreamReader(limit=2 ** 20)
+    ar = AsyncPacketReader(sr)
+    for ch in chunks:
+        sr.feed_data(ch)
+    sr.feed_eof()
+    out = []
+    for _ in range(n + 2):
+        try:
+            out.append(await ar.next_packet())
+        except Exception:
+            break
+    r.ev('oracle_evals')
+    if out != s.packets[:n]:
+        r.bad('areader/truncated/' + ('invented-packet' if len(out) > n else 'lost-or-changed'),
+              f'async reader returned {[bytes(p)[:12].hex() for p in out]} for a stream holding {n} complete '
+              f'packets; {ctx}')
+
+
 USB_CLASSES = {H.EVT: 'EventPacketSplitter', H.ACL: 'AclPacketSplitter', H.SCO: 'ScoPacketSplitter'}
 
 
@@ -539,6 +586,8 @@ async def frame_stream(r: R, rng, s: Stream, **kw):
         if family not in fams and nontrivial(s, cuts):
             fams.add(family)
             r.sig('h4', s.data[:4096], len(s.data), family)
+    for _ in range(3):
+        await drive_truncated(r, rng, s)
     r.evals(n)
     return n
 
